@@ -31,6 +31,11 @@ type world struct {
 	name, modelText, policy string
 	setup                   func(e *casbin.SyncedEnforcer)
 	w                       syncapi.World
+	// filteredAdapter: use the filtered file adapter (its flag is written inside LoadPolicy)
+	filteredAdapter bool
+	// freshPatterns: every enforcer gets key-match patterns never seen before in this process (the
+	// compiled-pattern cache of the key-match built-ins is process-wide and filled on first use)
+	freshPatterns bool
 }
 
 const twoTypesModel = `
@@ -46,6 +51,19 @@ g2 = _, _
 e = some(where (p.eft == allow))
 [matchers]
 m = g(r.sub, p.sub) && g2(r.obj, p.obj) && r.act == p.act
+`
+
+const keyMatch4Model = `
+[request_definition]
+r = sub, obj, act
+[policy_definition]
+p = sub, obj, act
+[role_definition]
+g = _, _
+[policy_effect]
+e = some(where (p.eft == allow))
+[matchers]
+m = r.sub == p.sub && keyMatch4(r.obj, p.obj) && r.act == p.act
 `
 
 const twoTypesPolicy = `p, alice, data1, read
@@ -86,7 +104,12 @@ func worlds() []*world {
 	pat.Matcher = "g(r.sub, p.sub) && g2(r.obj, p.obj) && regexMatch(r.act, p.act)"
 	pat.GTypes = []string{"g", "g2"}
 	pat.Arity = map[string]int{"p": 3, "g": 2, "g2": 2}
+	km4 := base
+	km4.Objs = []string{"/res/1/x/1", "/res/2/x/3", "/res/7/x/7"}
+	km4.Matcher = "r.sub == p.sub && keyMatch4(r.obj, p.obj) && r.act == p.act"
 	return []*world{
+		{name: "rbac-filtered-adapter", modelText: readExample("rbac_model.conf"), policy: readExample("rbac_with_hierarchy_policy.csv"), w: rbac, filteredAdapter: true},
+		{name: "keymatch4-fresh-patterns", modelText: keyMatch4Model, policy: "", w: km4, freshPatterns: true},
 		{name: "rbac", modelText: readExample("rbac_model.conf"), policy: readExample("rbac_with_hierarchy_policy.csv"), w: rbac},
 		{name: "rbac-domains", modelText: readExample("rbac_with_domains_model.conf"), policy: readExample("rbac_with_domains_policy.csv"), w: dom},
 		{name: "two-policy-types", modelText: twoTypesModel, policy: twoTypesPolicy, w: two},
@@ -108,11 +131,32 @@ func (sw *world) fresh(dir string) *casbin.SyncedEnforcer {
 			panic(err)
 		}
 	}
-	path := filepath.Join(dir, fmt.Sprintf("%s-%d.csv", sw.name, atomic.AddInt64(&fileSeq, 1)%64))
-	if err := os.WriteFile(path, []byte(sw.policy), 0o644); err != nil {
+	seq := atomic.AddInt64(&fileSeq, 1)
+	path := filepath.Join(dir, fmt.Sprintf("%s-%d.csv", sw.name, seq%64))
+	policy := sw.policy
+	if sw.freshPatterns {
+		var sb strings.Builder
+		for i, u := range sw.w.Users {
+			for k := 0; k < 4; k++ {
+				fmt.Fprintf(&sb, "p, %s, /res/{id}/x%d_%d_%d/{id}, read\n", u, seq, i, k)
+			}
+			fmt.Fprintf(&sb, "p, %s, /res/{id}/x/{id}, read\n", u)
+		}
+		policy = sb.String()
+	}
+	if err := os.WriteFile(path, []byte(policy), 0o644); err != nil {
 		panic(err)
 	}
-	e, err := casbin.NewSyncedEnforcer(mpath, fileadapter.NewAdapter(path))
+	var e *casbin.SyncedEnforcer
+	var err error
+	if sw.filteredAdapter {
+		e, err = casbin.NewSyncedEnforcer(mpath, fileadapter.NewFilteredAdapter(path))
+		if err == nil {
+			err = e.LoadPolicy() // the filtered adapter starts "filtered": nothing is loaded at construction
+		}
+	} else {
+		e, err = casbin.NewSyncedEnforcer(mpath, fileadapter.NewAdapter(path))
+	}
 	if err != nil {
 		panic(err)
 	}
@@ -207,7 +251,8 @@ func main() {
 	// which methods are read-path: those the static table gives R (observed dynamically by corr C12);
 	// here simply: names starting with Get/Has/Enforce/BatchEnforce
 	for _, m := range all {
-		if strings.HasPrefix(m.Name, "Get") || strings.HasPrefix(m.Name, "Has") || strings.Contains(m.Name, "Enforce") {
+		// LoadPolicy's first phase runs under the read lock: it belongs to the read path too
+		if strings.HasPrefix(m.Name, "Get") || strings.HasPrefix(m.Name, "Has") || strings.Contains(m.Name, "Enforce") || m.Name == "LoadPolicy" {
 			readers = append(readers, m)
 		}
 	}
